@@ -682,7 +682,22 @@ func (propC14) Check(t *testing.T, p *Plan, st *Stats) *Violation {
 		if o2.Bad() || o2.Failed {
 			return viol("C14(iv:twin-succeeds)", "the fault-free twin succeeds", o2.ErrClass()+" "+clip(o2.ErrText+o2.Panic, 300))
 		}
-		if a, b := o.Result.Render()+o.Stdout, o2.Result.Render()+o2.Stdout; a != b && p.Tags["undetermined"] != "1" {
+		// If one container had two requests in flight at the same time (operands
+		// opened concurrently), the daemon cannot tell them apart and "the n-th
+		// request of this container" is not a stable notion: no comparison then.
+		ambiguous := false
+		seenInBatch := map[string]bool{}
+		for _, oc := range o.Opens {
+			k := fmt.Sprint(oc.Batch, "/", oc.ID)
+			if seenInBatch[k] {
+				ambiguous = true
+			}
+			seenInBatch[k] = true
+		}
+		if st != nil {
+			st.ProbeIf(ambiguous, "same_container_requested_twice_concurrently")
+		}
+		if a, b := o.Result.Render()+o.Stdout, o2.Result.Render()+o2.Stdout; a != b && p.Tags["undetermined"] != "1" && !ambiguous {
 			if len(observed) > 0 {
 				return viol("C14(i:error-surfaces)", fmt.Sprintf("an error (the code was told about: %v), or at least the complete answer: %s", observed, clip(b, 300)),
 					"nil error and a truncated answer: "+clip(a, 300))
